@@ -106,6 +106,11 @@ def run(tier):
                     st["undamaged"] += 1
             else:
                 st["not_claimed"] += 1
+        jobs = [(k, p, recs) for k, (p, recs, _) in enumerate(cases)]
+        flaky = H.confirm(b, basedir, work, [(done[i]["meta"]["id"], i) for i in res["bad"]][:80], jobs, _case, lambda j: j)
+        if flaky:
+            ev.cov["not_reproduced_on_rerun"] = len(flaky)
+            res["bad"] = [i for i in res["bad"] if i not in flaky]
         clusters = {}
         for i in res["bad"]:
             m = done[i]["meta"]
